@@ -237,6 +237,10 @@ class FinishedPdu(AbstractFileDirectiveBase):
                 finished_pdu.pdu_file_directive.packet_len, len(data)
             )
         current_idx = finished_pdu.pdu_file_directive.header_len
+        # The parameters end at the declared PDU length, in front of the CRC trailer if present
+        end_of_params = finished_pdu.pdu_file_directive.packet_len
+        if finished_pdu.pdu_file_directive.pdu_conf.crc_flag == CrcFlag.WITH_CRC:
+            end_of_params -= 2
         first_param_byte = data[current_idx]
         params = FinishedParams(
             condition_code=ConditionCode((first_param_byte & 0xF0) >> 4),
@@ -245,10 +249,8 @@ class FinishedPdu(AbstractFileDirectiveBase):
         )
         finished_pdu._params = params
         current_idx += 1
-        if len(data) > current_idx:
-            finished_pdu._unpack_tlvs(
-                rest_of_packet=data[current_idx : finished_pdu.packet_len]
-            )
+        if end_of_params > current_idx:
+            finished_pdu._unpack_tlvs(rest_of_packet=data[current_idx:end_of_params])
         return finished_pdu
 
     def _unpack_tlvs(self, rest_of_packet: bytes) -> int:
